@@ -7,6 +7,7 @@ static uv::Cmd cmds[] = {
 	{"json", cmd_json},
 	{"promela", cmd_promela},
 	{"lua", cmd_lua},
+	{"tables", cmd_tables},
 	{0, 0}
 };
 int main(int argc, char** argv) {
